@@ -7,5 +7,16 @@ func init() { register("C06", c06) }
 // C06 re-runs the drivers of the other properties with the wire-protocol
 // automaton as the only reporting oracle.
 func c06(tier string) []*explore.Scenario {
-	return donors("C06", c01(tier), c02(tier), c11(tier), c07(tier), c03(tier), c04(tier))
+	return donors("C06", c01(tier), c02(tier), c11(tier), c07(tier), c03(tier), c04(tier), c09(tier), c14idle(tier))
+}
+
+// the idle-fixpoint scenarios of C14 (not its long history)
+func c14idle(tier string) []*explore.Scenario {
+	var out []*explore.Scenario
+	for _, sc := range c14(tier) {
+		if !sc.Once {
+			out = append(out, sc)
+		}
+	}
+	return out
 }
